@@ -435,6 +435,49 @@ def real_faults(ctx, jobs, parallel):
     ctx.notes.append(f"real-process fault runs: {n} in {time.time() - t0:.1f}s")
 
 
+def big_input_faults(ctx):
+    """a fault early in an input of many chunks whose workers each produce more output than a pipe holds (64 KiB): the other workers are still
+    sending when the error arrives - the run must end with an error all the same, and promptly"""
+    rng = ctx.rng
+    recs = []
+    for i in range(5000):
+        s_ = pipe.rs(rng, 100)
+        recs.append((f"read{i}", s_, "I" * len(s_)))
+    good = clirun.fastq(recs)
+    jobs = []
+    for where in ([3, 2500] if ctx.tier != "thorough" else [3, 40, 1200, 2500, 4990]):
+        bad = list(recs)
+        n_, s_, q_ = bad[where]
+        bad[where] = (n_, s_, q_[:-7])           # quality line shorter than the sequence
+        text = clirun.fastq(bad)
+        for cores in ([2, 3] if ctx.tier != "thorough" else [2, 3, 4]):
+            jobs.append((where, cores, text))
+    def work(job):
+        where, cores, text = job
+        return job, run_process(["--buffer-size", "120000", "-o", "{dir}/out.fastq", "{dir}/in.fastq"], {"in.fastq": text}, cores, timeout=REAL_TIMEOUT)
+    with ThreadPoolExecutor(4) as ex:
+        results = list(ex.map(work, jobs))
+    for (where, cores, text), (status, err, files) in results:
+        ctx.evaluations += 1
+        ctx.count("real:big-input-fault-runs")
+        inp = dict(kind="real-big", reads=len(recs), read_length=100, buffer_size=120000, faulty_record=where, fault="quality line 7 characters short", cores=cores)
+        if status == "timeout":
+            ctx.failures.append(Failure("C12/hang", f"-j {cores} (real processes), {len(recs)} reads in many chunks, fault in record {where}: no exit within {REAL_TIMEOUT} s",
+                                        inp, "timeout", None))
+        elif status == 0:
+            ctx.failures.append(Failure("C12/exit0-on-malformed", f"-j {cores}: exit status 0 although record {where} is malformed", inp, 0, "non-zero"))
+        elif not err.strip():
+            ctx.failures.append(Failure("C12/exit0-on-malformed", f"-j {cores}: non-zero exit status but no error message", inp, status, None))
+        else:
+            ctx.nontriv(f"real-big:{where}:{cores}")
+    # the well-formed file must pass with the same settings
+    status, err, files = run_process(["--buffer-size", "120000", "-o", "{dir}/out.fastq", "{dir}/in.fastq"], {"in.fastq": good}, 3)
+    ctx.evaluations += 1
+    if status != 0 or files.get("out.fastq", b"").count(b"\n") != 4 * len(recs):
+        ctx.failures.append(Failure("C12/well-formed-run-failed", "the well-formed big input does not pass with several cores",
+                                    dict(kind="real-big", reads=len(recs)), status, 0))
+
+
 # ------------------------------------------------------------------------------------------------
 
 def run(ctx):
@@ -512,6 +555,7 @@ def run(ctx):
         jobs.append((paired, [f for f in pair_faults(paired, p1, p2) if f["kind"] == "missing-mate"][2], [3]))
         jobs.append((single, [f for f in record_faults(single, {"in.fastq": r1}) if f["kind"] == "short-quality"][1], [3]))
     real_faults(ctx, jobs, parallel=8)
+    big_input_faults(ctx)
 
 
 def extended_search(ctx):
